@@ -18,7 +18,7 @@ class Grid(Family):
     def configs(self, tier):
         if tier == "quick":
             return shape_configs(tier, ALL6, sym_x_max_m=3, max_m=4, ns=(2, 3, 4), adaptive_max_m=4)
-        return shape_configs(tier, ALL6, sym_x_max_m=4, max_m=6, ns=(2, 3, 4, 6, 8), adaptive_max_m=5)
+        return shape_configs(tier, ALL6, sym_x_max_m=4, max_m=6, ns=(2, 3, 4, 6), adaptive_max_m=5)
 
     def run(self, ctx, inst, strategy, m, n, grid, p):
         x, y, X, ys = inputs(ctx, m, grid)
@@ -131,7 +131,7 @@ META = {
                    "`start` exactly at index 0 (documented NumPy behaviour, not re-proved here).",
     "bounds": {"quick": "m in 2..4, n in {2,3,4}; x symbolic for m<=3 (fixed strategies) else concrete gap grids; "
                         "parameter grids of rfafam.params_for",
-               "thorough": "m in 2..6 (adaptive <=5), n in {2,3,4,6,8}; x symbolic for m<=4"},
+               "thorough": "m in 2..6 (adaptive: m<=4 with n<=4, m=5 with n=2), n in {2,3,4,6}; x symbolic for m<=4"},
     "outside": ["m up to 60, n up to 64", "float rounding of linspace (reals)", "SciPy's CubicSpline numerics (stub)"],
     "assumptions": ["x strictly increasing", "CubicSpline stub: callable returning y_i at x_i and an unconstrained real "
                     "elsewhere, raising ValueError unless x is strictly increasing"],
